@@ -9,6 +9,7 @@ import (
 	"runtime"
 	"sort"
 	"strconv"
+	"strings"
 	"sync"
 	"time"
 
@@ -68,8 +69,21 @@ type reg struct {
 	seen    int // number of times a batch function received it
 }
 
+// inv is one resolver invocation (one field on one object).
+type inv struct {
+	key       string
+	parent    string // the invocation that produced the object this field is resolved on ("" = a root field)
+	round     int    // number of idle points that had happened when the resolver was called
+	exec      int
+	t         *task
+	r         *reg
+	conn      bool // a connection field
+	connAsync bool // its edges came through promises that pagination.go's own goroutines consume: delivery not observable
+}
+
 type event struct {
 	kind  string // go | batch | chain | idle
+	dep   int    // go/batch: promise of the nearest asynchronously resolved ancestor field (-1: none / not observable)
 	pid   int
 	waits []int
 	k     int
@@ -96,6 +110,7 @@ type openConn struct {
 	tasks    []*task
 	regs     []*reg
 	failed   bool
+	inv      *inv
 	calls    int
 	zero     bool
 	isTime   bool
@@ -125,6 +140,9 @@ type world struct {
 	pumpDone     chan struct{}
 	pumped       int
 	execs        int
+	invMap       map[string]*inv
+	invList      []*inv
+	curDep       int
 }
 
 func worldOf(ctx context.Context) *world {
@@ -179,6 +197,9 @@ func (w *world) spec(key string) Spec {
 		maxN = 3
 	}
 	s.N = next(maxN + 1)
+	if w.c.MinN > 0 && w.c.MinN <= maxN {
+		s.N = w.c.MinN + s.N%(maxN-w.c.MinN+1)
+	}
 	if next(100) < w.c.PGate {
 		if next(100) < w.c.PPre {
 			s.Gate = "pre"
@@ -213,6 +234,9 @@ func (w *world) closeOpen() {
 	if o == nil || o.failed || len(o.promises) == 0 {
 		return
 	}
+	if o.inv != nil {
+		o.inv.connAsync = true
+	}
 	for _, t := range o.tasks {
 		t.chained = true
 	}
@@ -244,6 +268,49 @@ func (w *world) execEvent() {
 	w.invoked++
 }
 
+// producer maps the key of an object to the invocation that returned it: list elements and edge
+// nodes carry their index in brackets.
+func producer(objKey string) string {
+	if n := len(objKey); n > 0 && objKey[n-1] == ']' {
+		if i := strings.LastIndexByte(objKey, '['); i >= 0 {
+			return objKey[:i]
+		}
+	}
+	return objKey
+}
+
+// noteInv records the invocation `key` on the object `objKey` (once) and sets the dependency of the
+// helper calls it is about to make.
+func (w *world) noteInv(key, objKey string, conn bool) *inv {
+	if w.invMap == nil {
+		w.invMap = map[string]*inv{}
+	}
+	x := w.invMap[key]
+	if x == nil {
+		x = &inv{key: key, parent: producer(objKey), round: w.round, exec: w.execs, conn: conn}
+		w.invMap[key] = x
+		w.invList = append(w.invList, x)
+	}
+	w.curDep = -1
+	for p := w.invMap[x.parent]; p != nil; p = w.invMap[p.parent] {
+		if p.t != nil {
+			w.curDep = p.t.pid
+			break
+		}
+		if p.r != nil {
+			w.curDep = p.r.pid
+			break
+		}
+		if p.conn && p.connAsync {
+			break
+		}
+		if p.parent == "" {
+			break
+		}
+	}
+	return x
+}
+
 func parentKey(obj interface{}) string {
 	switch o := obj.(type) {
 	case *node:
@@ -262,7 +329,7 @@ func (w *world) newTask(key string, sp Spec, mr mres) *task {
 		t.gate = make(chan struct{})
 	}
 	w.tasks = append(w.tasks, t)
-	w.events = append(w.events, event{kind: "go", pid: t.pid})
+	w.events = append(w.events, event{kind: "go", pid: t.pid, dep: w.curDep})
 	return t
 }
 
@@ -295,7 +362,7 @@ func (w *world) async(ctx graphql.FieldContext, key string, sp Spec, val interfa
 	case "batch":
 		r := &reg{id: len(w.regs), k: sp.Batch % nBatchers, key: key, pid: w.allocPid(), result: graphql.ResolveResult{Value: val, Error: err}, res: mr, exec: w.execs}
 		w.regs = append(w.regs, r)
-		w.events = append(w.events, event{kind: "batch", pid: r.pid, k: r.k, item: r.id})
+		w.events = append(w.events, event{kind: "batch", pid: r.pid, k: r.k, item: r.id, dep: w.curDep})
 		c2 := ctx
 		c2.Context = context.WithValue(ctx.Context, regKey, r)
 		p, e := batchers[r.k](c2)
@@ -341,7 +408,9 @@ func resolve(kind byte) func(graphql.FieldContext) (interface{}, error) {
 		if sp.Mode != "sync" && (kind == 'n' || kind == 'p') && sp.Out != "val" {
 			w.f02a = true
 		}
-		v, _, _, e := w.async(ctx, key, sp, val, err)
+		x := w.noteInv(key, parentKey(ctx.Object), false)
+		v, t, r, e := w.async(ctx, key, sp, val, err)
+		x.t, x.r = t, r
 		return v, e
 	}
 }
@@ -383,6 +452,7 @@ func resolveEdges(ctx graphql.FieldContext, after, before interface{}, limit int
 		w.anomaly("a resolver ran on the executor while the idle handler was running")
 	}
 	o := w.ensureOpen(key, limit == 1 || limit == -1, false)
+	o.inv = w.noteInv(key, parentKey(ctx.Object), true)
 	w.invoked++
 	sp := w.spec(key)
 	w.invs = append(w.invs, key+":"+sp.Mode+":"+sp.Out+":"+sp.Gate)
@@ -430,6 +500,7 @@ func edgeGetter(ctx graphql.FieldContext, minTime, maxTime time.Time, limit int)
 		w.anomaly("a resolver ran on the executor while the idle handler was running")
 	}
 	o := w.ensureOpen(key, isZeroLimit(ctx.Arguments), true)
+	o.inv = w.noteInv(key, parentKey(ctx.Object), true)
 	w.invoked++
 	total := w.spec(key).N + 2
 	qkey := key + "#" + strconv.Itoa(o.calls)
@@ -761,6 +832,7 @@ func buildAPI() *apifu.API {
 		}
 		if nd, ok := ctx.Object.(*node); ok {
 			w.execEvent()
+			w.noteInv(nd.key, "", false)
 			return nd, nil
 		}
 		return nil, errors.New("subscriptions are not supported using this protocol")
